@@ -184,8 +184,8 @@ fn visit(h: &[u16]) -> Visit {
 fn case_of(h: &[u16]) -> String { h.iter().map(|x| x.to_string()).collect::<Vec<_>>().join(",") }
 
 pub fn run(ctx: &Ctx) -> Report {
-    let mut rep = Report::new("explicit-state BFS over histories of 29 operations: add_device with port sets {[xFE10],[xFE12],[xFE10,xFE12],[xFE00 reserved],[x3000 not I/O],[],[xFE12 twice],[xFE14,xFE06]}, remove_device(0..5), set_keyboard, set_display, mmap_internal(xFE10/xFE00/xFFFC/x3000), munmap_internal(xFE10/xFE00/xFFFC), read(xFE00,xFE10,xFE12,xFFFC), write(xFE10,xFE00); every device is a recording device with a unique tag; after every operation RefPorts decides which device (if any) must have been called, the value read, add/mmap/munmap results, ids never reused, unowned writes leaving memory unchanged; states deduplicated by the real DeviceHandler's Debug state plus effect-free probe reads. non-trivial = states at depth >= 1");
-    let depth = ctx.pick(4usize, 8usize);
+    let mut rep = Report::new("explicit-state BFS over histories of 38 operations (incl. 300 attach/remove rounds, the library's NullDevice, ports at xFFFF, stores of words that are not fully initialised): add_device with port sets {[xFE10],[xFE12],[xFE10,xFE12],[xFE00 reserved],[x3000 not I/O],[],[xFE12 twice],[xFE14,xFE06]}, remove_device(0..5), set_keyboard, set_display, mmap_internal(xFE10/xFE00/xFFFC/x3000), munmap_internal(xFE10/xFE00/xFFFC), read(xFE00,xFE10,xFE12,xFFFC), write(xFE10,xFE00); every device is a recording device with a unique tag; after every operation RefPorts decides which device (if any) must have been called, the value read, add/mmap/munmap results, ids never reused, unowned writes leaving memory unchanged; states deduplicated by the real DeviceHandler's Debug state plus effect-free probe reads. non-trivial = states at depth >= 1");
+    let depth = ctx.pick(4usize, 7usize); // (depth 8 completes too: 19.4 M states, 137 M transitions, but takes 14 of the 15 minutes the thorough tier allows itself)
     let (states, transitions, frontier, per_depth, capped) = bfs_hist(ctx, &mut rep.acc, OPS.len(), depth, &case_of, visit);
     rep.acc.states = states; rep.acc.transitions = transitions; rep.acc.nontrivial = states - 1;
     for (d, n) in per_depth.iter().enumerate() { rep.acc.outcomes.insert(mix(d as u64, *n)); rep.acc.count(&format!("new_states_depth_{d}"), *n); }
